@@ -1,10 +1,127 @@
 (* props/C25.v — the property theorems of C25 (head chunks on disk are readable at once and
-   after restart).  Statements only; proofs are in proof/HeadChunksProofs.v. *)
-From Coq Require Import List NArith ZArith Bool.
+   after restart).  Statements only; proofs are in proof/HeadChunksProofs.v.
+   Model: model/HeadChunks.v.  The CRC is an arbitrary function [crc] everywhere: no theorem
+   below assumes anything about it. *)
+From Coq Require Import List NArith ZArith Bool Lia.
 From Verif Require Import lib.Int64 lib.Bytes lib.Varint model.HeadChunks proof.HeadChunksProofs.
 Import ListNotations.
 Open Scope N_scope.
 
+(* ------------------------------------------------------------------ read-your-write *)
+(* FULL STATEMENT (false of the faithful model, see C25_read_your_write_refuted):
+     for every directory fs the mapper was opened on and every schedule tr of WriteChunk / CutNewFile /
+     Truncate / worker phases (pop, write+callback, leave the map) / Chunk calls, every chunk handed
+     to WriteChunk whose file was not removed by a Truncate is returned by Chunk(ref) with the same
+     encoding and bytes, at every later point.
+   PROVED (partial): the same for every schedule in which each WriteChunk hands over a well-formed
+   chunk and no Truncate lowers the highest file number of the directory while no file is open
+   — except when nothing is queued and the directory becomes empty ([safe], decided step by step
+   on the schedule).  What is missing is exactly the excluded Truncate, for which the statement
+   is false.  [grun] threads the set G of chunks that must be readable: WriteChunk adds (ref, chunk),
+   Truncate drops the refs whose file it removed. *)
+Theorem C25_read_your_write_partial : forall crc bufsize qmax fs tr rf r,
+  safe crc bufsize qmax (init_state fs) tr ->
+  lookup_ref rf (snd (grun crc bufsize qmax (init_state fs) [] tr)) = Some r ->
+  do_read crc (fst (grun crc bufsize qmax (init_state fs) [] tr)) rf = RdOk (r_enc r) (r_data r).
+Proof. exact read_your_write. Qed.
+
+(* non-vacuity: a schedule with a queued, a written and a flushed-away chunk, a cut, a Truncate that
+   removes a file, and reads in between; it is admissible and three refs must be (and are) readable *)
+Definition ex_rec (series : N) (d : list N) : rec := mkRec series 10 20 1 false d.
+Definition ex_trace : list step :=
+  [SWrite (ex_rec 1 [0; 2; 9; 9]); SPop; SRead (1, 8); SProc; SRead (1, 8); SDone; SCut;
+   SWrite (ex_rec 2 [0; 1; 7; 7; 7]); SPop; SProc; SDone; SWrite (ex_rec 3 [0; 3; 1; 2; 3]); STrunc 1;
+   SWrite (ex_rec 4 [0; 1; 1; 1]); SPop; SProc].
+
+Lemma ex_wf series d : u64_ok series -> (4 <= length d)%nat -> nlen d < 1000 -> wf_write (ex_rec series d).
+Proof.
+  intros H1 H2 H3. unfold wf_write, wf_rec, ex_rec, rec_size, max_file_size. cbn [r_series r_mint r_maxt r_enc r_ooo r_data].
+  assert (nlen (put_uvarint (nlen d)) <= 5).
+  { pose proof (put_uvarint_len (nlen d) ltac:(lia)). unfold nlen in *. lia. }
+  repeat split; try (unfold int64, minInt64, maxInt64; lia); try assumption; try lia; try reflexivity;
+    try (intros (_ & H & _); discriminate).
+Qed.
+
+Example C25_read_your_write_nonvacuous :
+  safe (fun _ => 7) 65536 4 (init_state []) ex_trace /\
+  map fst (snd (grun (fun _ => 7) 65536 4 (init_state []) [] ex_trace)) = [(3, 8); (2, 43); (2, 8); (1, 8)].
+Proof.
+  split; [|vm_compute; reflexivity].
+  unfold ex_trace. cbn [safe safe_step].
+  repeat split; try (apply ex_wf; [unfold u64_ok, two64N; lia | cbn; lia | cbn; lia]).
+  right. left. vm_compute. reflexivity.
+Qed.
+
+(* the excluded schedule: the mapper is opened on files 1 and 2; a chunk is queued (it will open
+   file 3); Truncate(3) — what the head passes when only that chunk is still referenced — removes
+   files 1 and 2 while the job waits; the worker then cuts file 1, cutAndExpectRef fails, the
+   chunk is dropped, and Chunk(ref) fails although WriteChunk returned the ref and no file with
+   the ref's number was ever removed. *)
+Theorem C25_read_your_write_refuted : forall crc bufsize, exists fs r rf s outs,
+  wf_write r /\
+  run crc bufsize 4 (init_state fs) [SWrite r; SPop; SRead rf; STrunc 3; SProc; SDone; SRead rf] = (s, outs) /\
+  nth 0 outs ONone = ORef rf /\                                   (* WriteChunk returned rf *)
+  nth 2 outs ONone = ORead (RdOk (r_enc r) (r_data r)) /\         (* readable while queued *)
+  nth 3 outs ONone = OTrunc [1; 2] [] /\ fst rf = 3 /\            (* files 1, 2 removed; rf is in file 3 *)
+  nth 4 outs ONone = OProc false 1 8 /\                           (* the callback gets an error *)
+  nth 6 outs ONone = ORead (RdErr 6).                             (* the chunk is gone *)
+Proof.
+  intros crc bufsize.
+  exists [(1, hc_header); (2, hc_header)], (ex_rec 3 [0; 3; 1; 2; 3]), (3, 8).
+  eexists. eexists. split; [apply ex_wf; [unfold u64_ok, two64N; lia | cbn; lia | cbn; lia]|].
+  split; [vm_compute; reflexivity|]. vm_compute. repeat split; reflexivity.
+Qed.
+
+(* Chunk(ref) served from a file: a record lying at offset off of the file's bytes is returned
+   with its encoding and data (no matter what follows it) *)
+Theorem C25_chunk_from_file : forall crc bs vlen off r,
+  wf_rec r -> valid_enc (r_enc r) = true -> resident crc bs off r -> off + rec_size r <= vlen ->
+  chunk_at crc bs vlen off = RdOk (r_enc r) (r_data r).
+Proof. exact chunk_at_resident. Qed.
+
+(* ------------------------------------------------------------------ restart *)
+(* A file written by the mapper is header ++ records ++ p zero bytes (preallocation).  After a
+   restart iteration yields every record in write order with its ref (file, offset), series,
+   time range, sample count (first two data bytes), encoding and out-of-order flag. *)
+Theorem C25_iterate_roundtrip : forall crc seq rs p, Forall wf_rec rs ->
+  iterate_file crc seq (file_bytes crc rs p) = (infos seq 8 rs, EOk).
+Proof. exact iterate_roundtrip. Qed.
+
+(* Torn tail: the file cut at ANY byte k at or after the header yields exactly the records that
+   end at or before k, followed by a clean end or a CorruptionErr for this file — never a chunk
+   that was not completely written, never a panic.  No assumption on the CRC is used: the
+   verdict follows from lengths alone. *)
+Theorem C25_torn_tail : forall crc seq rs p k, Forall wf_rec rs ->
+  (8 <= k <= length (file_bytes crc rs p))%nat ->
+  exists e, iterate_file crc seq (firstn k (file_bytes crc rs p)) =
+              (firstn (ncomplete rs (k - 8)) (infos seq 8 rs), e) /\
+            (e = EOk \/ exists w, e = ECorrupt w).
+Proof. exact iterate_torn. Qed.
+
+(* a file cut inside its header is never accepted (NewChunkDiskMapper fails, or
+   repairLastChunkFile deletes it when fewer than 4 bytes are left) *)
+Theorem C25_torn_header : forall k bs, (k < 8)%nat -> header_ok (firstn k bs) = false.
+Proof. exact (torn_header (fun _ => 0)). Qed.
+
+Example C25_restart_nonvacuous :
+  let rs := [ex_rec 1 [0; 2; 9; 9]; mkRec 5 (-3) 7 2 true [0; 1; 200; 200; 200; 0; 0]] in
+  Forall wf_rec rs /\
+  iterate_file (fun _ => 7) 4 (file_bytes (fun _ => 7) rs 40) =
+    ([((4, 8), mkCI 1 10 20 2 1 false); ((4, 42), mkCI 5 (-3) 7 1 2 true)], EOk) /\
+  ncomplete rs (60 - 8) = 1%nat /\
+  iterate_file (fun _ => 7) 4 (firstn 60 (file_bytes (fun _ => 7) rs 40)) =
+    ([((4, 8), mkCI 1 10 20 2 1 false)], ECorrupt 1) /\
+  iterate_file (fun _ => 7) 4 (firstn 85 (file_bytes (fun _ => 7) rs 40)) =
+    ([((4, 8), mkCI 1 10 20 2 1 false); ((4, 42), mkCI 5 (-3) 7 1 2 true)], EOk).
+Proof.
+  cbn zeta. split.
+  - constructor; [|constructor; [|constructor]];
+      unfold wf_rec, ex_rec; cbn [r_series r_mint r_maxt r_enc r_ooo r_data];
+      (repeat split; try (unfold int64, minInt64, maxInt64, u64_ok, two64N; cbn; lia)); try (intros (H & _); discriminate).
+  - vm_compute. repeat split; reflexivity.
+Qed.
+
+(* ------------------------------------------------------------------ truncation *)
 (* Truncate(n) removes only files whose number is below n, never the file being written, and
    changes nothing else that a reader can see (bytes of the remaining files, the pending map,
    the chunk buffer, the writer position). *)
